@@ -248,3 +248,109 @@ def c15_4(run):
     if not n_ok:
         raise Inconclusive('vacuity: no accepting path')
     run.require_reached(*run.cur.reach)
+
+
+# ----------------------------------------------------------------------------------------------------------------- C15-5
+@obligation('C15', 'C15-5 aggregate_oracle_votes: one published price per mapped currency pair = median of exactly the prices reported for that pair (as a multiset), unmapped ids ignored')
+def c15_5(run):
+    calls = []
+
+    def h_median(ctx):
+        v = M.shaped(ctx.ex, ctx.st, ctx.args[0], 'price list')
+        xs = [ctx.ex.deref_val(ctx.st, x) for x in v.attrs['items']]
+        n = sum(1 for e in ctx.st.log if e[0] == 'median')
+        r = z3.BitVec(f'median_{n}', 128)
+        ctx.st.log.append(('median', tuple(xs), r))
+        if not xs:
+            return [(None, none())]
+        lo, hi = xs[0], xs[0]
+        for x in xs[1:]:
+            lo = z3.If(x < lo, x, lo); hi = z3.If(x > hi, x, hi)
+        ctx.st.pc += [lo <= r, r <= hi]                      # the contract decided by the Kani harnesses (C15-1) for lists of <= 3/4 prices
+        return [(None, some(r))]
+
+    def h_price_new(ctx):
+        ctx.st.log.append(('published', ctx.ex.deref_val(ctx.st, ctx.args[0]), ctx.ex.deref_val(ctx.st, ctx.args[1]), ctx.ex.deref_val(ctx.st, ctx.args[2])))
+        return [(None, Obj('astria_core::sequencerblock::v1::block::Price', kind='opaque'))]
+    def h_decode(ctx):
+        src = ctx.ex.deref_val(ctx.st, ctx.args[0])
+        okv = z3.Bool(f'decode_ok_{getattr(src, "lz", 0)}')
+        return [(okv, (lambda s2: ok(s2.tr(src)))), (z3.Not(okv), (lambda s2: err(Obj('prost::DecodeError', kind='error'))))]
+
+    def h_try_from_raw(ctx):
+        src = ctx.ex.deref_val(ctx.st, ctx.args[0])
+        okv = z3.Bool(f'convert_ok_{getattr(src, "lz", 0)}')
+        return [(okv, (lambda s2: ok(s2.tr(src).attrs['ove']))), (z3.Not(okv), (lambda s2: err(Obj('OracleVoteExtensionError', kind='error'))))]
+    hooks = [(re.compile(r'^(oracles::price_feed::utils::)?median$'), h_median), (re.compile(r'(^|::)block::Price::new$|sequencerblock::v1::block::Price::new$'), h_price_new),
+             (re.compile(r'^(std::option::)?Option::<&.*CurrencyPairInfo>::cloned$'), lambda ctx: [(None, ctx.ex.deref_val(ctx.st, ctx.args[0]))] if False else None),
+             (re.compile(r'OracleVoteExtension as (prost::)?Message>::decode(::<.*>)?$'), h_decode), (re.compile(r'OracleVoteExtension::try_from_raw$'), h_try_from_raw),
+             (re.compile(r'^<(bytes::)?Bytes as AsRef<\[u8\]>>::as_ref$'), lambda ctx: [(None, ctx.ex.deref_val(ctx.st, ctx.args[0]))]),
+             (re.compile(r'^<.*CurrencyPairInfo as Clone>::clone$|^<.*CurrencyPair as Clone>::clone$'), lambda ctx: [(None, ctx.ex.deref_val(ctx.st, ctx.args[0]))])]
+    sc = {'astria_core::oracles::price_feed::types::v2::CurrencyPairId': 64, 'CurrencyPairId': 64, 'astria_core::oracles::price_feed::types::v2::Price': 128, 'oracles::price_feed::types::v2::Price': 128,
+          'types::v2::Price': 128, 'types::v2::CurrencyPairId': 64, 'oracles::price_feed::types::v2::CurrencyPairId': 64}
+    ex = loader.load(['astria-core'], scalar_types=sc, hooks=hooks, dep_adts=['tendermint'])
+    f = ex.find(r'^(oracles::price_feed::utils::)?calculate_prices_from_vote_extensions$')
+    shapes = [(), (1,), (2,), (1, 1), (2, 1), (2, 2)] if run.tier == 'quick' else [(), (1,), (2,), (1, 1), (2, 1), (2, 2), (1, 1, 1), (2, 2, 1)]
+    run.bound(votes=f'vote shapes (prices per vote) {shapes}; price ids symbolic (equal or different), the id -> pair mapping has 0..2 entries', median='entered through its contract min <= median <= max (C15-1, Kani)',
+              decoding='protobuf decoding / try_from_raw of each vote extension are oracles that may fail (then the whole call fails)')
+    n_pub = 0
+    for shape in shapes:
+        for nmap in (0, 1, 2):
+            mids = [z3.BitVec(f'mapped_id{j}', 64) for j in range(nmap)]
+            infos = []
+            for j in range(nmap):
+                pair = Obj('astria_core::oracles::price_feed::types::v2::CurrencyPair', kind='opaque'); pair.attrs['ident'] = z3.BitVec(f'pair{j}', 256)
+                info = B.struct(ex, 'CurrencyPairInfo', currency_pair=pair, decimals=z3.BitVec(f'decimals{j}', 8)); info.attrs['ident'] = z3.BitVec(f'info{j}', 256); info.attrs['j'] = j
+                infos.append(info)
+            mapping = M.new_map('IndexMap<CurrencyPairId, CurrencyPairInfo>', list(zip(mids, infos)))
+            votes = []; allp = []
+            for vi, cnt in enumerate(shape):
+                ps = [(z3.BitVec(f'v{vi}_id{k}', 64), z3.BitVec(f'v{vi}_price{k}', 128)) for k in range(cnt)]
+                allp += ps
+                ove = B.struct(ex, 'OracleVoteExtension', prices=M.new_map('IndexMap<CurrencyPairId, Price>', ps))
+                ext = Obj('bytes::Bytes', kind='opaque'); ext.attrs['ove'] = ove
+                votes.append(B.struct(ex, 'tendermint::abci::types::ExtendedVoteInfo', vote_extension=ext))
+            eci = B.struct(ex, 'tendermint::abci::types::ExtendedCommitInfo', round=z3.BitVec('round', 32), votes=M.new_vec('Vec<ExtendedVoteInfo>', votes))
+            st = ex.start(f, [B.cell(eci), B.cell(mapping)])
+            st.pc += [mids[a] != mids[b] for a in range(nmap) for b in range(a + 1, nmap)]
+            st.pc += [infos[a].attrs['ident'] != infos[b].attrs['ident'] for a in range(nmap) for b in range(a + 1, nmap)]
+            for vi, cnt in enumerate(shape):     # ids inside one vote are distinct (IndexMap keys)
+                st.pc += [z3.BitVec(f'v{vi}_id{a}', 64) != z3.BitVec(f'v{vi}_id{b}', 64) for a in range(cnt) for b in range(a + 1, cnt)]
+            for i, p in enumerate(run.explore(ex, st, allow_havoc=(r'^Arguments::|fmt::',))):
+                lab = f'[votes {shape}, {nmap} mapped ids, path {i}]'
+                if p.kind != 'return':
+                    run.prove(f'no panic {lab}', p.pc, z3.BoolVal(False), detail=p.info); continue
+                if p.result.discr != 'Ok':
+                    continue
+                meds = [e for e in p.log if e[0] == 'median']; pubs = [e for e in p.log if e[0] == 'published']
+                run.sample({'shape': list(shape), 'mapped': nmap, 'path': i, 'medians': [len(e[1]) for e in meds], 'published': len(pubs)})
+                claim = [z3.BoolVal(len(pubs) == len([e for e in meds if e[1]]))]
+                for j in range(nmap):
+                    want = [pr for (idv, pr) in allp]           # candidates in vote order; membership decided by the solver
+                    member = [idv == mids[j] for (idv, pr) in allp]
+                    # the median call for pair j (if any) received exactly the member prices in order
+                    mine = [e for e, pb in zip([e for e in meds if e[1]], pubs) if isinstance(pb[1], Obj) and pb[1].attrs.get('ident') is not None and str(pb[1].attrs['ident']) == f'pair{j}']
+                    anym = z3.Or(*member) if member else z3.BoolVal(False)
+                    if not mine:
+                        claim.append(z3.Not(anym))
+                        continue
+                    claim.append(z3.BoolVal(len(mine) == 1))
+                    got = list(mine[0][1])
+                    # got must equal the subsequence of `want` selected by `member`
+                    def subseq_eq(got, want, member):
+                        if not want:
+                            return z3.BoolVal(len(got) == 0)
+                        rest_skip = z3.And(z3.Not(member[0]), subseq_eq(got, want[1:], member[1:]))
+                        if not got:
+                            return rest_skip
+                        return z3.Or(z3.And(member[0], got[0] == want[0], subseq_eq(got[1:], want[1:], member[1:])), rest_skip)
+                    import itertools
+                    claim.append(z3.Or(*[subseq_eq(list(pm), want, member) for pm in itertools.permutations(got)]))      # as a multiset: the order inside the list does not matter to the median
+                    pb = [pb for e, pb in zip([e for e in meds if e[1]], pubs) if e is mine[0]][0]
+                    claim += [pb[2] == mine[0][2]]
+                    n_pub += 1
+                run.prove(f'every mapped pair with reports is published once with the median of exactly its reported prices (as a multiset); pairs without reports and unmapped ids publish nothing {lab}', p.pc, z3.And(*claim),
+                          detail={'medians': [[str(x) for x in e[1]] for e in meds], 'published': [(str(pb[1].attrs.get('ident')) if isinstance(pb[1], Obj) else str(pb[1]), str(pb[2]), str(pb[3])) for pb in pubs]})
+    if not n_pub:
+        raise Inconclusive('vacuity: nothing published')
+    run.require_reached(*run.cur.reach)
